@@ -165,7 +165,8 @@ func compileBinaryMultiplicative(
 
 func compileBinaryRelational(ctx context.Context[parser.IRelationalExpressionContext]) (types.Type, error) {
 	adds := ctx.AST.AllAdditiveExpression()
-	leftType, err := compileAdditive(context.Child(ctx, adds[0]))
+	// the hint describes the comparison's result (u8), not its operands
+	leftType, err := compileAdditive(context.Child(ctx, adds[0]).WithHint(types.Type{}))
 	if err != nil {
 		return types.Type{}, err
 	}
@@ -216,7 +217,8 @@ func compileBinaryRelational(ctx context.Context[parser.IRelationalExpressionCon
 
 func compileBinaryEquality(ctx context.Context[parser.IEqualityExpressionContext]) (types.Type, error) {
 	rels := ctx.AST.AllRelationalExpression()
-	leftType, err := compileRelational(context.Child(ctx, rels[0]))
+	// the hint describes the comparison's result (u8), not its operands
+	leftType, err := compileRelational(context.Child(ctx, rels[0]).WithHint(types.Type{}))
 	if err != nil {
 		return types.Type{}, err
 	}
